@@ -25,6 +25,7 @@ type Bus struct {
 	holds []*Hold
 	sent  []*wire.Envelope
 	taps  []func(*wire.Envelope)
+	after []func(*wire.Envelope)
 
 	activity atomic.Uint64
 	pending  atomic.Int64
@@ -64,6 +65,16 @@ func (b *Bus) Tap(f func(*wire.Envelope)) {
 	b.mu.Lock()
 	defer b.mu.Unlock()
 	b.taps = append(b.taps, f)
+}
+
+// TapAfter registers an observer that runs after an envelope has been handed
+// to the link (delivery goes on asynchronously) and before Publish returns to
+// the sender: a scenario can hold the sender there, as a slow network stack
+// would, while the recipient already acts on the message.
+func (b *Bus) TapAfter(f func(*wire.Envelope)) {
+	b.mu.Lock()
+	defer b.mu.Unlock()
+	b.after = append(b.after, f)
 }
 
 // Sent returns all envelopes published so far.
@@ -132,9 +143,13 @@ func (b *Bus) Publish(_ context.Context, e *wire.Envelope) error {
 	if start {
 		l.running = true
 	}
+	after := append([]func(*wire.Envelope){}, b.after...)
 	b.mu.Unlock()
 	if start {
 		go b.run(l)
+	}
+	for _, t := range after {
+		t(e)
 	}
 	return nil
 }
